@@ -168,6 +168,14 @@ type Fact struct {
 // edgeCond returns the condition controlling the edge b -> b.Succs[k] as a
 // (expr, value) pair, or nil when the edge is unconditional or not value based
 // (range, select).
+// EdgeCondExpr returns the condition expression that decides the edge b -> b.Succs[k] (nil for an unconditional edge).
+func (g *Graph) EdgeCondExpr(b *cfg.Block, k int) ast.Expr {
+	if c := g.edgeCond(b, k); c != nil {
+		return c.E
+	}
+	return nil
+}
+
 func (g *Graph) edgeCond(b *cfg.Block, k int) *Fact {
 	if len(b.Succs) != 2 {
 		return nil
